@@ -57,6 +57,10 @@ def scripts(draw, tier):
     c["criterion_arg"] = "default" if (crit == "relative" and draw(st.booleans())) else "explicit"    # 'relative' is the documented default
     c["rounds"] = draw(st.sampled_from([1, 1, 2]))      # a second fit() re-using the same evaluator and stopper (epoch numbers restart)
     c["clear_between"] = draw(st.booleans())           # ... with or without evaluator.clear_history() in between
+    c["se"] = draw(st.sampled_from([1, 1, 1, 2, 3, 4]))  # starting_epoch: epochs are numbered se..E, periods refer to the epoch NUMBER
+    c["extra_names"] = draw(st.booleans())              # the evaluator tracks other quantities besides the monitored one
+    c["variance_name"] = draw(st.sampled_from([None, "m", "a", "m_variance"]))    # deprecated class only: documented as ignored
+    c["second_stopper"] = draw(st.sampled_from([None, None, "before", "after"]))  # another stopper on the SAME evaluator (other quantity, other patience, tolerance 0: never fires)
     return c
 
 
@@ -86,7 +90,7 @@ def reference(c, E, L=None, counter=None):
     L = [] if L is None else L
     counter = [len(L)] if counter is None else counter       # index into the script = evaluations made so far (survives clear_history)
     p, tol = c["patience"], c["tol"]
-    for e in range(1, E + 1):
+    for e in range(c.get("se", 1), E + 1):
         if e % c["pe"] == 0:
             i = counter[0]
             if i >= len(c["vals"]):
@@ -114,13 +118,13 @@ def plan_rounds(c):
     for Lr in lens:
         if Lr < 1:
             break
-        E = Lr * c["pe"] + (c["pe"] - 1)
+        E = (c.get("se", 1) - 1) + Lr * c["pe"] + (c["pe"] - 1)
         h, cnt = list(hist), [done]
         stop_e, cut = reference(c, E, h, cnt)
         if cut is not None:
             truncated = True
             E = cut - 1
-            if E < 1:
+            if E < c.get("se", 1):
                 break
             h, cnt = list(hist), [done]
             stop_e, cut2 = reference(c, E, h, cnt)
@@ -138,7 +142,7 @@ def check(c):
     from qucumber.nn_states import PositiveWaveFunction
     from qucumber.observables import ObservableBase
     plan, truncated = plan_rounds(c)
-    labels = ["criterion=" + c["criterion"], "family=" + c["family"], f"p={c['patience']}", "evaluator=" + c.get("evaluator", "metric")] + (["periods_differ"] if c["pe"] != c["ps"] else [])
+    labels = ["criterion=" + c["criterion"], "family=" + c["family"], f"p={c['patience']}", "evaluator=" + c.get("evaluator", "metric")] + (["periods_differ"] if c["pe"] != c["ps"] else []) + ([f"starting_epoch>1"] if c.get("se", 1) > 1 else []) + (["extra_names"] if c.get("extra_names") else [])
     if truncated:
         labels.append("truncated")
     if not plan:
@@ -158,18 +162,25 @@ def check(c):
                 counter[0] += 1
                 mu, d = c["vals"][i], (c["ds"][i] if c.get("ds") else 0.5)
                 return torch.tensor([mu - d, mu + d], dtype=torch.double)
-        ev = ObservableEvaluator(c["pe"], [Scripted()], num_samples=2, num_chains=2, burn_in=0, steps=0)
+        class Const(ObservableBase):
+            def __init__(self, name, v):
+                self.name = self.symbol = name
+                self.v = v
+            def apply(self, nn_state, samples):
+                return torch.tensor([self.v, self.v + 1.0], dtype=torch.double)
+        obs_list = [Const("a", 7.0), Scripted(), Const("z", -3.0)] if c.get("extra_names") else [Scripted()]
+        ev = ObservableEvaluator(c["pe"], obs_list, num_samples=2, num_chains=2, burn_in=0, steps=0)
     else:
         def metric(nn_state, **kw):
             i = counter[0]
             counter[0] += 1
             return conv(c["vals"][i])
-        ev = MetricEvaluator(c["pe"], {"m": metric})
+        ev = MetricEvaluator(c["pe"], {"a": (lambda s_, **kw: 7.0), "m": metric, "z": (lambda s_, **kw: -3.0)} if c.get("extra_names") else {"m": metric})
     spell = {"plain": c["criterion"], "upper": c["criterion"].upper(), "spaces": "  " + c["criterion"].capitalize() + " "}[c["crit_spelling"]]
     if c["criterion"] == "variance" and c["deprecated_class"]:
         with warnings.catch_warnings(record=True) as w:
             warnings.simplefilter("always")
-            es = VarianceBasedEarlyStopping(c["ps"], c["tol"], c["patience"], ev, "m")
+            es = VarianceBasedEarlyStopping(c["ps"], c["tol"], c["patience"], ev, "m", **({"variance_name": c["variance_name"]} if c.get("variance_name") else {}))
         require(any(issubclass(x.category, DeprecationWarning) for x in w), "deprecated-class:no-warning", "VarianceBasedEarlyStopping did not emit a DeprecationWarning")
         labels.append("deprecated_class")
     elif c.get("criterion_arg") == "default" and c["criterion"] == "relative":
@@ -179,6 +190,11 @@ def check(c):
         es = EarlyStopping(c["ps"], c["tol"], c["patience"], ev, "m", criterion=spell)
     ends = []
     rec = LambdaCallback(on_epoch_end=lambda s, e: ends.append(e))
+    cb_list = [ev, es, rec]
+    if c.get("second_stopper") and c.get("extra_names"):
+        es2 = EarlyStopping(1, 0.0, 1 if c["patience"] > 1 else 2, ev, "a", criterion=c["criterion"])
+        cb_list = [ev, es2, es, rec] if c["second_stopper"] == "before" else [ev, es, es2, rec]
+        labels.append("second_stopper")
     nt_any = False
     for ri, (E, stop_e) in enumerate(plan):
         del ends[:]
@@ -186,7 +202,7 @@ def check(c):
         if ri > 0 and c.get("clear_between"):
             ev.clear_history()
         before_last = es.last_epoch
-        state.fit(data, epochs=E, pos_batch_size=2, lr=0.01, callbacks=[ev, es, rec])
+        state.fit(data, epochs=E, pos_batch_size=2, lr=0.01, starting_epoch=c.get("se", 1), callbacks=cb_list)
         r = judge_round(c, ri, E, stop_e, ends, es, state, ev, before_last)
         nt_any = nt_any or r
     if len(plan) > 1:
@@ -209,7 +225,7 @@ def judge_round(c, ri, E, stop_e, ends, es, state, ev, before_last):
                 f"rule met at epoch {stop_e} but training ran until {last} (last_epoch={es.last_epoch}, stop_training={state.stop_training})" + rtag)
     first_adm = None
     cnt = 0
-    for e in range(1, E + 1):
+    for e in range(c.get("se", 1), E + 1):
         cnt += e % c["pe"] == 0
         if e % c["ps"] == 0 and cnt >= c["patience"] + 1:
             first_adm = e
